@@ -427,6 +427,12 @@ fn run_script(sc: &Script, ctx: &mut Ctx) -> Result<(), Fail> {
             let mut served = true;
             for round in 0..2 {
                 let sock = connect(port, false).map_err(|e| Fail::new("exporter-not-accepting", format!("epilogue reader {} could not connect (buffer_size {:?}): {}", round, sc.buffer, e)))?;
+                if round == 0 {
+                    // this reader has nothing to say: it shuts down its sending direction and keeps reading — it is still
+                    // a connected client that is reading
+                    let _ = sock.shutdown(std::net::Shutdown::Write);
+                    ctx.class("reader-with-its-sending-direction-shut-down");
+                }
                 let buf: Arc<Mutex<Vec<u8>>> = Default::default();
                 let stop = Arc::new(AtomicBool::new(false));
                 let handle = spawn_reader(&sock, buf.clone(), stop.clone());
@@ -446,6 +452,7 @@ fn run_script(sc: &Script, ctx: &mut Ctx) -> Result<(), Fail> {
                     Ok(false)
                 })?;
                 extra_bufs.push(buf);
+                ensure!(served, "accepted-client-never-served", "epilogue reader {} ({}) connected (buffer_size {:?}) and probe metrics were emitted for {:?}, but it received no metric frame", round, if round == 0 { "which shut down its sending direction and keeps reading" } else { "a plain reader" }, sc.buffer, deadline);
                 if round == 0 && served {
                     describe(&rec, &('g', late_names[0].clone(), Some(Unit::Bytes), "described again".to_string()), &mut described);
                     // confirmed once a probe emitted after it has reached the first epilogue reader
